@@ -246,6 +246,31 @@ impl Bus {
     }
 }
 
+#[cfg(dmd_core_verif)]
+impl Bus {
+    /// Read-only views of the devices behind the bus.
+    pub fn verif_rom(&self) -> &[u8] {
+        self.rom.as_slice(0..0x20000)
+    }
+
+    pub fn verif_ram(&self) -> &[u8] {
+        let len = self.ram.address_range().end - self.ram.address_range().start;
+        self.ram.as_slice(0..len)
+    }
+
+    pub fn verif_vid(&self) -> [u8; 2] {
+        [self.vid[0], self.vid[1]]
+    }
+
+    pub fn verif_mouse(&self) -> (u16, u16) {
+        (self.mouse.x, self.mouse.y)
+    }
+
+    pub fn verif_duart(&self) -> &Duart {
+        &self.duart
+    }
+}
+
 #[cfg(test)]
 mod tests {
     use super::*;
